@@ -184,9 +184,9 @@ package comp
 //@   ensures !result2 ==> result == 0 && result1 == nil
 //@   assigns nothing
 //@   loop 0: invariant len(_range0) == min(len(c.lines), c.numberOfLines) && (forall j :: 0 <= j && j < len(_range0) ==> _range0[j] == c.lines[j])
-//@   loop 0: invariant forall j :: 0 <= j && j < _idx0 ==> !covers(c.lines[j], addrs[0])
+//@   loop 0: invariant forall j :: 0 <= j && j < _idx0 ==> !covers(_range0[j], addrs[0])
 //@   loop 1: invariant 0 <= i && i <= int(lineLength) && len(data) == i && cap(data) >= int(lineLength) && fresh(data) && 0 <= _idx0 && _idx0 < len(_range0) && covers(c.lines[_idx0], addrs[0]) && int32(smallerAlignAddr) == addrs[0] - addrs[0] % lineLength
-//@   loop 1: invariant forall j :: 0 <= j && j < _idx0 ==> !covers(c.lines[j], addrs[0])
+//@   loop 1: invariant forall j :: 0 <= j && j < _idx0 ==> !covers(_range0[j], addrs[0])
 //@   loop 1: invariant wfLine(c, c.lines[_idx0]) && int32(c.lines[_idx0].Boundary[0]) % lineLength == 0 && c.lineLength % int(lineLength) == 0 && _range0[_idx0] == c.lines[_idx0]
 //@   loop 1: invariant forall a :: lo(data) <= a && a < lo(data) + i ==> at(data, a) == at(c.lines[_idx0].Data, lo(c.lines[_idx0].Data) + int(smallerAlignAddr) - int(c.lines[_idx0].Boundary[0]) + (a - lo(data)))
 
